@@ -10,3 +10,11 @@ def find(ctx, oblig, diag):
                 return res
         return res
     return None
+
+def standing(ctx, oblig, diag):
+    r = find(ctx, "sigleaf.digit", diag)
+    if r and r.get("violates"): return r
+    r2 = ctx["replay_tool"](["sigv4-search"])
+    if r2.get("violates") and r2.get("input", {}).get("query") not in ([["x", "2"], ["x", "1"]],):
+        r2["source"] = "requests signed by the reference signer (paths/queries with special characters)"; return r2
+    return r
